@@ -335,7 +335,7 @@ EXPECT = {
                    ("val", "info.str_val", []), ("stdev", "info.str_stdev", []),
                    ("extern", "GNU_gama::str2xml(obs->get_extern())", ["!obs->get_extern().empty()"])],
     "HeightDifferences": [("from", "GNU_gama::str2xml(info.str_from)", []), ("to", "GNU_gama::str2xml(info.str_to)", []),
-                          ("val", "info.str_val", []), ("dist", "to_xmlstr(dist)", ["dist>0"]), ("stdev", "info.str_stdev", ["!(dist>0)"]),
+                          ("val", "info.str_val", []), ("dist", "to_xmlstr(dist)", ["dist>0"]), ("stdev", "info.str_stdev", ["<dh-stdev>"]),
                           ("extern", "GNU_gama::str2xml(obs->get_extern())", ["!obs->get_extern().empty()"])],
     "Coordinates": [("extern", "GNU_gama::str2xml(cluster->get_extern())", ["!cluster->get_extern().empty()"]),
                     ("id", "GNU_gama::str2xml(from)", []), ("x", "info.str_val", ['info.xml_name=="x"']),
@@ -359,6 +359,19 @@ def writer(net_src, obs_src):
             g = g + ["!(dist>0)"]
         got.setdefault(ctx, []).append((s["attr"], s["expr"], g))
     consts = {}
+    # --- <dh>: the standard deviation is written always (since 9f04c51) or only in the `else` of `if (dist > 0)`
+    hdl = got.get("HeightDifferences", [])
+    for k, (a, e, g) in enumerate(hdl):
+        if a == "stdev":
+            if g == []:
+                consts["dhStdevAlways"] = True
+            elif g == ["!(dist>0)"]:
+                consts["dhStdevAlways"] = False
+            else:
+                raise DocError(f"export_xml: guards of <dh stdev>: {g}")
+            hdl[k] = (a, e, ["<dh-stdev>"])
+    if "dhStdevAlways" not in consts:
+        raise DocError("export_xml: <dh> writes no stdev")
     # --- y_sign on the point's y
     pt = got.get("point", [])
     for k, (a, e, g) in enumerate(pt):
@@ -504,12 +517,13 @@ def refine_site(net):
     mz = re.search(r"unknown_type\s*\(\s*i\s*\)\s*==\s*'Z'\s*\)\s*\{(.*?)\}", b, re.S)
     if not mx or not mz:
         raise DocError("refine_approx_coordinates: the 'X' / 'Z' branches not recognised")
-    ref = r"LocalPoint\s*&\s*b\s*=\s*PD\s*\[\s*cb\s*\]\s*;"
-    cbr = r"const\s+PointID\s*&\s*cb\s*=\s*unknown_pointid\s*\(\s*i\s*\)\s*;"
-    m = re.search(r"b\.set_xy\s*\(\s*b\.x\(\)\s*\+\s*x\(i\)\s*/\s*(\d+)\s*,\s*b\.y\(\)\s*\+\s*x\(i\s*\+\s*(\d+)\)\s*/\s*(\d+)\s*\)\s*;", mx.group(1))
-    out["xy"] = (bool(re.search(ref, mx.group(1)) and re.search(cbr, mx.group(1)) and m), m.groups() if m else ("0", "0", "0"))
-    m = re.search(r"b\.set_z\s*\(\s*b\.z\(\)\s*\+\s*x\(i\)\s*/\s*(\d+)\s*\)\s*;", mz.group(1))
-    out["z"] = (bool(re.search(ref, mz.group(1)) and re.search(cbr, mz.group(1)) and m), m.groups() if m else ("0",))
+    # the two branches must be exactly: bind the point BY REFERENCE, add the correction(s); nothing else (no status test)
+    bx = re.sub(r"\s+", "", mx.group(1))
+    m = re.fullmatch(r"constPointID&cb=unknown_pointid\(i\);LocalPoint&b=PD\[cb\];b\.set_xy\(b\.x\(\)\+x\(i\)/(\d+),b\.y\(\)\+x\(i\+(\d+)\)/(\d+)\);", bx)
+    out["xy"] = (bool(m), m.groups() if m else ("0", "0", "0"))
+    bz = re.sub(r"\s+", "", mz.group(1))
+    m = re.fullmatch(r"constPointID&cb=unknown_pointid\(i\);LocalPoint&b=PD\[cb\];b\.set_z\(b\.z\(\)\+x\(i\)/(\d+)\);", bz)
+    out["z"] = (bool(m), m.groups() if m else ("0",))
     a = body_of(net, r"bool\s+LocalNetwork::refine_adjustment\s*\(\s*\)\s*\{", "refine_adjustment")
     shape = re.sub(r"\s+", "", a)
     want = ("clear_linearization_iterations();while(next_linearization_iterations()){boolrefine=refine_obsdh_reductions(this);"
@@ -660,6 +674,8 @@ def generate(repo):
           f"def covMirrors : Bool := {'true' if W['consts']['covMirrors'] else 'false'}",
           "/-- with a list and `degrees()` rows of angular observations are scaled to sexagesimal seconds (0.324) -/",
           f"def covScalesSeconds : Bool := {'true' if W['consts']['covScalesSeconds'] else 'false'}", "",
+          "/-- `<dh>`: `stdev` is written also when `dist > 0` (true since 9f04c51; before only in the `else` branch: finding F28) -/",
+          f"def dhStdevAlways : Bool := {'true' if W['consts']['dhStdevAlways'] else 'false'}",
           "/-- DisplayObservationVisitor writes the standard deviation of an angular observation `* scale`, scale = 0.324 in degrees -/",
           f"def visStdevScaled : Bool := {'true' if W['consts']['visStdevScaled'] else 'false'}",
           "/-- the parser tries `deg2gon` on the value of direction / angle / z-angle / azimuth first and keeps the flag -/",
